@@ -289,14 +289,21 @@ def run_pair(ctx, a, b, ct, cd, batch, pending, compare_model=True):
             else:
                 ctx.hist("pair.outcome", "upgrade-error-outside-class")
             return "upgrade-error"
+        # the second autogenerate: half of the runs on a fresh MigrationContext (what the command line does), half
+        # through the SAME context that produced the first diff and executed the upgrade (API use)
+        same_ctx = (len(ops) + len(a["tables"]) + (1 if batch else 0) + (1 if ct is True else 0)) % 2 == 0
+        ctx.hist("pair.second_diff", "same-context" if same_ctx else "fresh-context")
         try:
-            _, _, ops2 = S.produce(conn, mdb, ct, cd, batch)
+            if same_ctx:
+                ops2 = S.produce_again(mctx, mdb)
+            else:
+                _, _, ops2 = S.produce(conn, mdb, ct, cd, batch)
         except Exception as e:
             if pair_wf(a, b):
                 ctx.fail(inp, "converge-error: the second autogenerate raises after the upgrade (%s: %s)" % (type(e).__name__, str(e)[:300]),
                          impl={"first": ops, "src": src}, tags=["batch:%s" % batch, "exc:%s" % type(e).__name__] + flags)
             return "converge-error"
-        pending.append(("converge", inp, ops2, {"first": ops, "src": src}))
+        pending.append(("converge", inp, ops2, {"first": ops, "src": src, "second_diff_context": "same" if same_ctx else "fresh"}))
         if compare_model and in_class:
             pending.append(("db", {**inp, "b": order_b(b, mdb)}, live_dump(conn), None))
         ctx.hist("pair.outcome", "ok" if not ops2 else "residual")
